@@ -13,6 +13,7 @@ def OrderWF (o : Order) : Prop := 0 ≤ o.assets.2 ∧ 0 ≤ o.price.2 ∧ Entri
 structure WF (s : State) : Prop where
   orders : ∀ o ∈ s.orders, OrderWF o
   ids : ∀ o ∈ s.orders, o.id ≤ s.lastOrderId
+  idsNodup : (s.orders.map (·.id)).Nodup
   commits : ∀ c ∈ s.commitments, EntriesNonneg c.amount
   pays : ∀ p ∈ s.payments, isValidCoins p.sourceAmt = true ∧ isValidCoins p.targetAmt = true
   keys : (s.payments.map payKey).Nodup
@@ -271,11 +272,12 @@ theorem covered_of_hold_le {s s' : State} (hc : HoldsCovered s) (hb : s'.bank = 
   simp only [bal, hb] at *
   omega
 
-theorem WF.of_subset {s s' : State} (hw : WF s) (ho : ∀ o ∈ s'.orders, o ∈ s.orders)
+theorem WF.of_subset {s s' : State} (hw : WF s) (ho : s'.orders.Sublist s.orders)
     (hl : s.lastOrderId ≤ s'.lastOrderId) (hcm : ∀ c ∈ s'.commitments, c ∈ s.commitments)
     (hp : s'.payments.Sublist s.payments) : WF s' where
-  orders := fun o h => hw.orders o (ho o h)
-  ids := fun o h => Nat.le_trans (hw.ids o (ho o h)) hl
+  orders := fun o h => hw.orders o (ho.subset h)
+  ids := fun o h => Nat.le_trans (hw.ids o (ho.subset h)) hl
+  idsNodup := hw.idsNodup.sublist (ho.map _)
   commits := fun c h => hw.commits c (hcm c h)
   pays := fun p h => hw.pays p (hp.subset h)
   keys := hw.keys.sublist (hp.map payKey)
